@@ -137,6 +137,7 @@ func burstCase(engine, bal string, rounds, clients, watchers int) map[string]any
 		}()
 	}
 	req := stack.Request("POST", "/olla/proxy/v1/chat/completions", s.Addr, [][2]string{{"Content-Type", "application/json"}}, []byte(`{"messages":[]}`), false)
+	vlib.Breadcrumb(map[string]any{"kind": "bursts", "engine": engine, "balancer": bal, "rounds": rounds, "clients": clients, "watchers": watchers})
 	stale, first, served := 0, "", 0
 	for r := 0; r < rounds; r++ {
 		var wg sync.WaitGroup
